@@ -14,6 +14,7 @@ func examples(di, n int) [][]byte {
 	d := &decoders[di]
 	var ver byte
 	g := rapid.Custom(func(t *rapid.T) []byte {
+		_ = rapid.Bool().Draw(t, "_") // Example insists on at least one draw
 		f := gen.NewFiller(t, nil)
 		f.Budget = 120
 		f.MaxElems = 2
@@ -46,7 +47,7 @@ var hostileSeeds = [][]byte{
 // version, input) with the same oracle as TestDecoders.
 func FuzzDecoders(f *testing.F) {
 	for di := range decoders {
-		for _, e := range examples(di, 2) {
+		for _, e := range examples(di, 1) {
 			f.Add(uint16(di), e[0], e[1:])
 			// hostile count right after a valid prefix of every length is left
 			// to the fuzzer; give it the truncations at a few points
@@ -55,8 +56,8 @@ func FuzzDecoders(f *testing.F) {
 				f.Add(uint16(di), e[0], append(append([]byte(nil), e[1:len(e)/2]...), 0xfe, 0x00, 0x00, 0x00, 0x40))
 			}
 		}
-		for _, h := range hostileSeeds {
-			f.Add(uint16(di), byte(0), h)
+		for k := 0; k < 2; k++ {
+			f.Add(uint16(di), byte(0), hostileSeeds[(di+k*3)%len(hostileSeeds)])
 		}
 	}
 	f.Fuzz(func(t *testing.T, sel uint16, ver byte, data []byte) {
@@ -72,6 +73,7 @@ func FuzzFramed(f *testing.F) {
 	for i, mi := range framedMessages {
 		m := &messages[mi]
 		g := rapid.Custom(func(t *rapid.T) []byte {
+			_ = rapid.Bool().Draw(t, "_") // Example insists on at least one draw
 			fl := gen.NewFiller(t, nil)
 			fl.Budget = 120
 			fl.MaxElems = 2
@@ -82,11 +84,13 @@ func FuzzFramed(f *testing.F) {
 			}
 			return w.buf
 		})
-		for k := 1; k <= 2; k++ {
+		for k := 1; k <= 1; k++ {
 			if p := g.Example(k); p != nil {
 				f.Add(uint16(i), frame(m.name, uint32(len(p)), p, p))
 				// declared length at the message's limit with no payload
-				f.Add(uint16(i), frame(m.name, m.fresh().MaxLength(), p, nil))
+				if ml := m.fresh().MaxLength(); ml <= 1<<20 {
+					f.Add(uint16(i), frame(m.name, ml, p, nil))
+				}
 			}
 		}
 		var hdr [24]byte
